@@ -3,7 +3,7 @@ import cmd
 from functools import wraps
 from pyparsing.exceptions import ParseException
 from qbee.stmt import Block
-from qbee.exceptions import InternalError, SyntaxError
+from qbee.exceptions import InternalError, SyntaxError, CompileError
 from qbee import grammar
 from .module import QModule
 from .machine import QvmMachine
@@ -532,7 +532,8 @@ Type help or ? to list commands.
         tree.bind(self.eval_context)
         try:
             value = tree.eval()
-        except EvalError as e:
+        except (EvalError, CompileError, InternalError,
+                ArithmeticError) as e:
             print('Eval error:', e)
             return
 
